@@ -320,6 +320,8 @@ SimUnit == (op = "simulate" /\ res # <<>> /\ NLoss(circ[LastT].ops) = 0 /\ Heral
 DistNorm == (op = "sdist" /\ res # <<>>) =>
               /\ RSumSet(DOMAIN res[2], LAMBDA p : res[2][p]) = RInt(res[1])
               /\ \A p \in DOMAIN res[2] : IsReal(res[2][p]) /\ RSign(res[2][p]) >= 0
+\* C04: the SLOS transition system computes the permanent formula (both back-ends are one function)
+SlosEqualsPermanent == (op = "sdist" /\ res # <<>>) => SlosAgrees(sem[LastT], FullIn(circ[LastT], prog[Len(prog)][4]))
 \* C05: analyzer probabilities lie in [0,1] and their total (the performance) is at most one
 AnalyzeBound == (op = "analyze" /\ res # <<>>) => RLeq(RSumSet(DOMAIN res[2], LAMBDA o : res[2][o]), RInt(res[1]))
 \* C05: the quick sampler keeps only lossless heralded accepted outputs: its mass is at most the analyzer's
